@@ -120,6 +120,41 @@ theorem C10_options_interleaving (o o' : List TrustOpt)
     trust (newChecker o) ip = trust (newChecker o') ip := by
   simp only [C10_options_meaning, trust, hl, hk, hp, any_perm _ hr]
 
+/-- giving a flag value twice in a row is giving it once -/
+theorem lastD_dup (d v : Bool) (a b : List Bool) : lastD d (a ++ v :: v :: b) = lastD d (a ++ v :: b) := by
+  simp [lastD_append, lastD]
+
+/-- **C10_options_repeat** — applying the SAME option twice (base options plus appended options that
+    repeat one of them) is applying it once: for every option — a flag with `true` or `false`, a
+    range — at every position of every list, and for every address.  In particular a second
+    `TrustPrivateNet(false)` does not switch the class back on. -/
+theorem C10_options_repeat (a b : List TrustOpt) (o : TrustOpt) (ip : IP) :
+    trust (newChecker (a ++ o :: o :: b)) ip = trust (newChecker (a ++ o :: b)) ip := by
+  cases o with
+  | loopback v =>
+    simp only [C10_options_meaning, trust, loopbackVals_append, linkLocalVals_append, privateVals_append,
+      rangesOf_append, loopbackVals, linkLocalVals, privateVals, rangesOf, lastD_dup]
+  | linkLocal v =>
+    simp only [C10_options_meaning, trust, loopbackVals_append, linkLocalVals_append, privateVals_append,
+      rangesOf_append, loopbackVals, linkLocalVals, privateVals, rangesOf, lastD_dup]
+  | privateNet v =>
+    simp only [C10_options_meaning, trust, loopbackVals_append, linkLocalVals_append, privateVals_append,
+      rangesOf_append, loopbackVals, linkLocalVals, privateVals, rangesOf, lastD_dup]
+  | range n =>
+    simp only [C10_options_meaning, trust, loopbackVals_append, linkLocalVals_append, privateVals_append,
+      rangesOf_append, loopbackVals, linkLocalVals, privateVals, rangesOf, List.any_append, List.any_cons]
+    cases contains n ip <;> simp
+
+/-- any number of repetitions of a `false` flag leaves the class off (the parity of the count is
+    irrelevant) -/
+theorem C10_options_false_stays_false (k : Nat) (b : List TrustOpt) (hb : privateVals b = []) :
+    (newChecker (List.replicate (k + 1) (.privateNet false) ++ b)).privateNet = false := by
+  rw [C10_options_meaning]
+  simp only [privateVals_append, hb, List.append_nil]
+  induction k with
+  | zero => simp [privateVals, lastD]
+  | succ k ih => simpa [List.replicate_succ, privateVals, lastD] using ih
+
 /-- the trust decision of a checker built from options, in RFC terms (`C10_trust_ranges`
     composed with `C10_options_meaning`) -/
 theorem C10_options_trust (opts : List TrustOpt) (ip : IP) :
@@ -141,6 +176,11 @@ example : trust (newChecker [.range net10, .privateNet false]) [10, 1, 2, 3] = t
     trust (newChecker [.privateNet false, .range net10]) [10, 1, 2, 3] = true ∧
     trust (newChecker [.privateNet false]) [10, 1, 2, 3] = false ∧
     trust (newChecker [.range net10, .privateNet false]) [192, 168, 0, 1] = false := by decide
+
+-- the same option twice, three times: still off
+example : trust (newChecker [.privateNet false, .privateNet false]) [10, 1, 2, 3] = false ∧
+    trust (newChecker [.privateNet false, .loopback true, .privateNet false, .privateNet false]) [192, 168, 0, 1] = false ∧
+    trust (newChecker [.linkLocal false, .linkLocal false]) [169, 254, 0, 1] = false := by decide
 
 -- the last flag value wins; an absent flag is `true`
 example : (newChecker [.loopback false, .range net10, .loopback true, .linkLocal false]).loopback = true ∧
